@@ -836,6 +836,10 @@ func (w *world) exec1(op string) string {
 		return w.typedOp(f)
 	case "mforced":
 		return w.mforced(f[1], num(2))
+	case "alias":
+		return w.alias(f[1], num(2))
+	case "cross":
+		return w.cross(f[1], num(2))
 	case "forced":
 		return w.forced(f[1], f[2])
 	case "stress":
@@ -879,6 +883,10 @@ func genList(rng *hx.Rng, maxLen int) []E {
 }
 
 func genArg(rng *hx.Rng, self int) string {
+	if rng.Chance(1, 10) {
+		// aliasing: the receiver itself is the argument
+		return fmt.Sprintf("@%d", self)
+	}
 	if rng.Chance(1, 3) {
 		j := rng.Intn(nRegs)
 		if j == self {
@@ -1033,7 +1041,13 @@ func genCase(rng *hx.Rng, n int) []string {
 		case x < 710:
 			ops = append(ops, fmt.Sprintf("replace %d %s", r, genArg(rng, r)))
 		case x < 770:
-			ops = append(ops, fmt.Sprintf("apply %d %s %s", r, genArg(rng, r), genArg(rng, r)))
+			a, d := genArg(rng, r), genArg(rng, r)
+			if d == fmt.Sprintf("@%d", r) && a != d {
+				// deleted elements aliased to the receiver: only with no additions (or the same aliased additions), otherwise
+				// "the elements to delete" would change while the additions are applied
+				a = "-"
+			}
+			ops = append(ops, fmt.Sprintf("apply %d %s %s", r, a, d))
 		case x < 810:
 			ops = append(ops, fmt.Sprintf("compute %d %s %s", r, commaList(genList(rng, 3)), commaList(genList(rng, 4))))
 		case x < 830:
@@ -1179,6 +1193,10 @@ var corpus = [][]string{
 	{"mdec 02000000010005010007", "mdec 03000000010005020006010007", "dec 0 0200000003000300", "dec 1 03000000010002000100", "mfe", "slice 0"},
 	// arithmetic
 	{"aradd 1,2 2,3 1", "aradd 1,3 - 2", "arsub 1 3 2", "aradd 3,3 - 1", "arsub - 1,2 1", "arsub 1,2 - 1"},
+	// aliasing: the receiver is its own argument
+	{"new 0 2,0,3", "addall 0 @0", "hasall 0 @0", "equals 0 @0", "intersect 0 @0", "apply 0 @0 -", "replace 0 @0", "slice 0",
+		"new 0 1,2", "apply 0 - @0", "new 0 4,5", "delall 0 @0", "new 0 1,3", "apply 0 @0 @0"},
+	{"alias addall 500", "alias delall 500", "cross addall 500", "cross replace 500"},
 	// collector functions fed the same element repeatedly into one SetMutations object
 	{"arcnew 1", "arc + 0", "arc + 0", "arc - 0", "arc - 0", "arc - 0", "arc + 0", "arc + 0"},
 	{"arcnew 2", "arc + 1", "arc + 1", "arc + 1", "arc - 1", "arc - 1", "arc + 1", "arc - 2", "arc + 2", "arc + 2", "arc + 2", "arc - 1", "arc - 1"},
